@@ -5,8 +5,14 @@ sources. Run by hand, after reviewing that the hand-written model matches the co
 written against; the resulting files are committed. At check time the tie theorems compare the
 freshly regenerated `Rscp.Gen.*` with these frozen expectations by `rfl`.
 """
-import os, re, sys
+import os, re, subprocess, sys
 ROOT = os.path.dirname(os.path.dirname(os.path.abspath(__file__)))
+# always bless against a fresh translation of /repo's CLEAN tree
+assert subprocess.run(["git", "-C", "/repo", "status", "--short"], capture_output=True, text=True).stdout.strip() == "", "refusing to bless: /repo has local changes"
+env = dict(os.environ, GOFLAGS="-mod=mod", GOPROXY="off"); env.pop("GOSUMDB", None)
+os.makedirs(os.path.join(ROOT, ".build"), exist_ok=True)
+subprocess.run(["go", "build", "-o", os.path.join(ROOT, ".build", "rscp2lean"), "."], cwd=os.path.join(ROOT, "tools", "rscp2lean"), env=env, check=True)
+subprocess.run([os.path.join(ROOT, ".build", "rscp2lean"), "/repo", os.path.join(ROOT, "lean", "Rscp", "Gen")], env=env, check=True)
 GEN = os.path.join(ROOT, "lean", "Rscp", "Gen")
 TIE = os.path.join(ROOT, "lean", "Rscp", "Tie")
 sys.path.insert(0, os.path.join(ROOT, "checks"))
